@@ -476,11 +476,12 @@ type SpecDB struct {
 	Consts    map[string]string // spec constants name -> expr text
 	Trusted   []string          // names of assumed contracts
 	StateFns  map[string]*StateFn
+	GlobalFacts map[string][]SExpr
 }
 
 func NewSpecDB() *SpecDB {
 	return &SpecDB{Contracts: map[string]*Contract{}, Preds: map[string]*PredDef{}, Ghosts: map[string]*GhostDecl{},
-		SpecFns: map[string]*SpecFn{}, Consts: map[string]string{}, StateFns: map[string]*StateFn{}}
+		SpecFns: map[string]*SpecFn{}, Consts: map[string]string{}, StateFns: map[string]*StateFn{}, GlobalFacts: map[string][]SExpr{}}
 }
 
 // splitTags strips a trailing "[C01 C02]" tag group.
@@ -657,6 +658,18 @@ func (db *SpecDB) LoadSpecFile(path, pkgPath string, trusted bool) error {
 				}
 			}
 			db.SpecFns[name] = &SpecFn{Name: name, Params: ps, Result: strings.TrimSpace(rest[k+1:])}
+		case "global":
+			// global pkg/path.Name ensures <expr over `it`>
+			i := strings.Index(rest, " ensures ")
+			if i < 0 {
+				return fail(fmt.Errorf("global <name> ensures <expr>"))
+			}
+			e, err := parseSpecExpr(strings.TrimSpace(rest[i+len(" ensures "):]))
+			if err != nil {
+				return fail(err)
+			}
+			name := strings.TrimSpace(rest[:i])
+			db.GlobalFacts[name] = append(db.GlobalFacts[name], e)
 		case "smt":
 			db.SMT = append(db.SMT, rest)
 		case "statefn":
